@@ -17,23 +17,34 @@ Proof.
   repeat (apply andb_prop in H; destruct H as [H ?]). repeat split; assumption.
 Qed.
 
+Lemma faithful_sound (e : bytes * bytes) : faithful_entry e = true ->
+  exists cp, decode_utf8 (fst e) = Some cp /\ (128 <= cp < 65536)%N /\ snd e = prefix ++ hex4 cp.
+Proof.
+  destruct e as [u m]. unfold faithful_entry. cbn [fst snd]. destruct (decode_utf8 u) as [cp|]; [|discriminate].
+  intros F. apply andb_prop in F. destruct F as [F F2]. apply andb_prop in F. destruct F as [F0 F1].
+  exists cp. split; [reflexivity|]. split; [|now apply beqb_eq]. apply N.ltb_lt in F1. apply N.leb_le in F0. split; auto.
+Qed.
+
 Lemma faithful e : In e table -> exists cp, decode_utf8 (fst e) = Some cp /\ (128 <= cp < 65536)%N /\ snd e = prefix ++ hex4 cp.
 Proof.
-  intros I. destruct table_parts as [F _]. rewrite forallb_forall in F. specialize (F e I). unfold faithful_entry in F.
-  revert F. destruct (decode_utf8 (fst e)) as [cp|]; intros F; [|discriminate F].  apply andb_prop in F. destruct F as [F F2].
-  apply andb_prop in F. destruct F as [F0 F1].
-  exists cp. split; [reflexivity|]. split; [|now apply beqb_eq]. apply N.ltb_lt in F1. apply N.leb_le in F0. split; auto.
+  intros I. destruct table_parts as [F _]. rewrite forallb_forall in F. exact (faithful_sound e (F e I)).
+Qed.
+
+Lemma ascii_entry_sound (e : bytes * bytes) : ascii_entry e = true ->
+  head_unique ascii (snd e) /\ Forall (fun a => is_ascii a = true) (snd e) /\ Forall (fun a => is_ascii a = false) (fst e).
+Proof.
+  destruct e as [u m]. unfold ascii_entry. cbn [fst snd]. intros F.
+  apply andb_prop in F. destruct F as [F F3]. apply andb_prop in F. destruct F as [F1 F2]. split; [|split].
+  - destruct m as [|p0 mt]; [discriminate F3|]. cbn [head_unique]. intros J. apply negb_true_iff in F3.
+    assert (existsb (Ascii.eqb p0) mt = true) by (apply existsb_exists; exists p0; split; auto; apply Ascii.eqb_refl). congruence.
+  - apply Forall_forall. rewrite forallb_forall in F1. auto.
+  - apply Forall_forall. rewrite forallb_forall in F2. intros a J. apply F2 in J. now apply negb_true_iff in J.
 Qed.
 
 Lemma head_unique_entry e : In e table -> head_unique ascii (snd e) /\ Forall (fun a => is_ascii a = true) (snd e) /\
   Forall (fun a => is_ascii a = false) (fst e).
 Proof.
-  intros I. destruct table_parts as [_ [F _]]. rewrite forallb_forall in F. specialize (F e I). unfold ascii_entry in F.
-  apply andb_prop in F. destruct F as [F F3]. apply andb_prop in F. destruct F as [F1 F2]. split; [|split].
-  - destruct (snd e) as [|p0 mt]; [discriminate|]. simpl. intros J. apply negb_true_iff in F3.
-    assert (existsb (Ascii.eqb p0) mt = true) by (apply existsb_exists; exists p0; split; auto; apply Ascii.eqb_refl). congruence.
-  - apply Forall_forall. rewrite forallb_forall in F1. auto.
-  - apply Forall_forall. rewrite forallb_forall in F2. intros a J. apply F2 in J. now apply negb_true_iff in J.
+  intros I. destruct table_parts as [_ [F _]]. rewrite forallb_forall in F. exact (ascii_entry_sound e (F e I)).
 Qed.
 
 Lemma roundtrip_char e : In e table -> mangle table (fst e) = snd e /\ demangle table (snd e) = fst e.
